@@ -223,3 +223,21 @@ func zzResolve(v *intstr.IntOrString, total int) int {
 	pct, _ := strconv.Atoi(s[:len(s)-1])
 	return (pct*total + 99) / 100
 }
+
+// zzAddUntargetedNodes adds k ("0", "1", "30") nodes to NodeByName only: nodes that exist but are
+// not targeted by the replica set (FilterAndMapPodsByNode leaves unfit and ignored nodes out of
+// PodByNodeName).
+func zzAddUntargetedNodes(p *Parameters, k string) int {
+	n := 0
+	switch k {
+	case "1":
+		n = 1
+	case "30":
+		n = 30
+	}
+	for i := 0; i < n; i++ {
+		ni := NewNodeItem(&corev1.Node{ObjectMeta: metav1.ObjectMeta{Name: "untargeted" + strconv.Itoa(i)}}, nil)
+		p.NodeByName[ni.Node.Name] = ni
+	}
+	return n
+}
